@@ -603,6 +603,10 @@ func stripOAIGenForRef(opts *FlattenOpts, k string, r *newRef) (bool, error) {
 
 	// rewrite first parent schema in hierarchical then lexicographical order
 	debugLog("rewrite first parent %s with schema", pr[0])
+	if r.schema != nil {
+		// the schema goes back inline: it is no more a definition created by flatten
+		delete(r.schema.Extensions, "x-go-gen-location")
+	}
 	if err := replace.UpdateRefWithSchema(opts.Swagger(), pr[0], r.schema); err != nil {
 		return false, err
 	}
